@@ -563,7 +563,7 @@ def run_wait_many(case, st):
     waiting when the delivery began gets its timestamp."""
     import canopen
     import canopen.pdo.base as pb
-    vsched.interpose(pb.PdoMap, {"is_received", "timestamp", "data", "period"})
+    vsched.interpose(pb.PdoMap, {"is_received", "timestamp", "data", "period", "_receptions"})
     TIMEOUT = 1.0
     nw = case["waiters"]
 
@@ -646,7 +646,7 @@ def run_case(case, st):
 def run_wait(case, st):
     import canopen
     import canopen.pdo.base as pb
-    vsched.interpose(pb.PdoMap, {"is_received", "timestamp", "data", "period"})
+    vsched.interpose(pb.PdoMap, {"is_received", "timestamp", "data", "period", "_receptions"})
     frames, P = case["frames"], case["P"]
     TIMEOUT = 1.0
 
